@@ -82,6 +82,9 @@ pub struct Prog {
     pub judge_under_fault: bool,
 }
 
+/// value size that marks a synchronous put in thread programs
+pub const SYNC_SIZE: u32 = 9;
+
 pub fn val(id: u16, size: u32) -> Vec<u8> {
     let base = format!("val{:05}", id).into_bytes();
     let mut v = Vec::with_capacity(size.max(8) as usize);
@@ -119,7 +122,9 @@ pub fn top_str(o: &TOp, keys: &[Vec<u8>]) -> String {
     let k = |i: &u8| esc(&keys[*i as usize]);
     match o {
         TOp::Put(i, v, s) => {
-            if *s > 8 {
+            if *s == SYNC_SIZE {
+                format!("put-sync {}=v{}", k(i), v)
+            } else if *s > 8 {
                 format!("put {}=v{}({}B)", k(i), v, s)
             } else {
                 format!("put {}=v{}", k(i), v)
@@ -173,7 +178,9 @@ fn exec_op(db: &DB, keys: &[Vec<u8>], thread: usize, op: &TOp, log: &Mutex<Vec<E
     match op {
         TOp::Put(k, v, s) => {
             let i = tick();
-            let r = db.put(WriteOptions::default(), keys[*k as usize].clone(), val(*v, *s));
+            // a value size of SYNC_SIZE marks a write with WriteOptions::synchronous (it is not
+            // merged into the group commit of a non-synchronous leader)
+            let r = db.put(WriteOptions { synchronous: *s == SYNC_SIZE }, keys[*k as usize].clone(), val(*v, *s));
             push(i, tick(), op.clone(), to_res(r));
         }
         TOp::Del(k) => {
